@@ -362,6 +362,9 @@ func (e *Extractor) IsCharacterLevel() (bool, error) {
 	if err := e.ensureReader(); err != nil {
 		return false, err
 	}
+	if err := e.requirePDF(); err != nil {
+		return false, err
+	}
 
 	page, err := e.reader.GetPage(0)
 	if err != nil {
@@ -391,6 +394,9 @@ func (e *Extractor) IsMultiColumn() (bool, error) {
 	}
 
 	if err := e.ensureReader(); err != nil {
+		return false, err
+	}
+	if err := e.requirePDF(); err != nil {
 		return false, err
 	}
 
@@ -1820,9 +1826,22 @@ func (e *Extractor) validateFormat() error {
 	return nil
 }
 
+// requirePDF reports an error when a PDF-only operation (fragments, lines,
+// layout analysis, page selection ...) is requested for a document of another
+// format, which has no PDF reader.
+func (e *Extractor) requirePDF() error {
+	if e.reader == nil {
+		return fmt.Errorf("operation is only supported for PDF documents (this document is %s)", e.format)
+	}
+	return nil
+}
+
 // resolvePages converts 1-indexed page numbers to 0-indexed and validates them.
 // If no pages specified, returns all pages.
 func (e *Extractor) resolvePages() ([]int, error) {
+	if err := e.requirePDF(); err != nil {
+		return nil, err
+	}
 	pageCount, err := e.reader.PageCount()
 	if err != nil {
 		return nil, fmt.Errorf("failed to get page count: %w", err)
